@@ -241,13 +241,21 @@ func TestC19(t *testing.T) {
 			cnt := func(name string) { atomic.AddInt64(&n, 1); rep.Stat("library_callback_runs:"+name+":"+mode, 1) }
 			bl.Func(os.Getenv).Apply(func(k string) string { cnt("os.Getenv"); return "mocked-" + k })
 			bl.Func(os.Getpid).Apply(func() int { cnt("os.Getpid"); return 4242 })
-			bl.Func(strconv.Itoa).Apply(func(i int) string { cnt("strconv.Itoa"); return "itoa" })
+			// results depend on the argument: a call must get ITS result, not that of a call the logger made meanwhile
+			bl.Func(strconv.Itoa).Apply(func(i int) string { cnt("strconv.Itoa"); return "itoa" + string(rune('a'+i%26)) })
 			bl.Func(filepath.Base).Apply(func(p string) string { cnt("filepath.Base"); return "base" })
-			bl.Func(path.Base).Apply(func(p string) string { cnt("path.Base"); return "pbase" })
+			bl.Func(path.Base).Apply(func(p string) string { cnt("path.Base"); return "pbase:" + p })
 			bl.Func(strings.ToUpper).Apply(func(p string) string { cnt("strings.ToUpper"); return "UP" })
 			rec("library mocks -> %s %d %s %s %s %s", os.Getenv("VERIF_C19_KEY"), os.Getpid(), strconv.Itoa(7), filepath.Base("/a/b"), path.Base("/c/d"), strings.ToUpper("x"))
 			bl.Func(F1).Apply(func(a int) int { return a + 1 })
 			rec("F1 while library functions are mocked -> %d", F1(k))
+			// conditional stubs on the same functions
+			bl2 := mocker.Create()
+			defer bl2.Reset()
+			bl.Reset()
+			bl2.Func(strconv.Itoa).Return("many").When(1).Return("one").When(2).Return("two")
+			bl2.Func(path.Base).Return("DEFAULT").When("alpha/beta").Return("FIRST")
+			rec("library stubs -> %s %s %s %s %s", strconv.Itoa(1), strconv.Itoa(2), strconv.Itoa(77), path.Base("alpha/beta"), path.Base("x/y"))
 			if atomic.LoadInt64(&n) > 10000 {
 				rec("library mocks: runaway, %d callback runs", n)
 			}
